@@ -389,8 +389,9 @@ def check_bands(out, a, b, sigma, sps, tag, rare=()):
 def check_equiv(base, out, alpha, beta, d, xmax, tag, beta_txt=None, form='', floor=0.0, lowprec=False):
     """base: result on x, out: result on alpha x + beta; d = b-a of x; xmax = max|x|.
     beta_txt: spelling of the offset for the key (offsets given in units of sigma); form: key suffix naming the input form;
-    floor: additional rounding floor of the form (reduced-precision samples); lowprec: float32 / float16 arithmetic inside
-    GET_EYE - a one-step move of t_opt may then move the integer index by one"""
+    floor: additional rounding floor of the form (reduced-precision samples); lowprec: samples rounded to float32 / float16 (and
+    float32 arithmetic inside GET_EYE) - a one-step move of t_opt may then move the integer index by one, and the levels are
+    compared only when the timing outputs did not move"""
     v = []
     pair = f'alpha={alpha:g},beta={beta:g}' + (f' [{form}]' if form else '')
     if beta_txt is None:
@@ -411,12 +412,17 @@ def check_equiv(base, out, alpha, beta, d, xmax, tag, beta_txt=None, form='', fl
         return nb == no
 
     msg = lambda k: f'{tag} {pair}: {k} base={base[k]!r} scaled={out[k]!r}'
-    for k in ('mu0', 'mu1'):      # (the statement lists mu0, mu1, s0, s1 and the timing outputs; threshold is not compared)
+    # mu / s are statistics of the samples inside a window placed by t_left, t_right, t_opt.  Reduced-precision samples can move
+    # a timing output by the one grid step the timing clause allows; the window then holds other samples and the levels move by
+    # O(sigma / sqrt(n)), which no rounding floor covers: the level comparison is made only when the timing outputs are identical
+    # (the bands of the statement are asserted on these results by the caller in any case)
+    moved = lowprec and any(both(k) and O[k] != B[k] for k in ('t_left', 't_right', 't_opt'))
+    for k in ('mu0', 'mu1') if not moved else ():      # (the statement lists mu0, mu1, s0, s1 and the timing outputs; threshold is not compared)
         if not same_kind(k):
             v.append((f'equiv:levels:{cls}', msg(k) + ' (finite on one side only)'))
         elif both(k) and abs(O[k] - (alpha * B[k] + beta)) > tol:
             v.append((f'equiv:levels:{cls}', msg(k) + f' expected {alpha*B[k]+beta!r} tol {tol:g}'))
-    for k in ('s0', 's1'):
+    for k in ('s0', 's1') if not moved else ():
         if not same_kind(k):
             v.append((f'equiv:levels:{cls}', msg(k) + ' (finite on one side only)'))
         elif both(k) and abs(O[k] - alpha * B[k]) > tol:
@@ -460,7 +466,7 @@ def variant_info(var, sigma, xmax, nmax, nwin):
         floor = (nwin + 64) * U32 * mag + (EPS16 * mag if dtype == 'f16' else 0.0)
         lowprec = True
     if cont == 'es+n32':
-        floor = U32 * alpha * nmax        # the noise part is rounded to float32
+        floor, lowprec = U32 * alpha * nmax, True        # the noise part is rounded to float32
     return alpha, beta, beta_txt, ','.join(parts), floor, lowprec
 
 
@@ -595,10 +601,14 @@ def selftest_case(case):
     al, be, btxt, form, floor, low = variant_info(V(1e3, ('s', 1e8), 'es+n', 'f32', 'R,fs', 'pos'), 0.01, 1.1, 0.05, 512)
     assert (al, be, btxt, form, low) == (1e3, 1e9, '1e+08sigma', 'es+n:f32,gv(R,fs),call:pos', True) and floor > 0
     assert variant_info(V(1, 7), 0.01, 1.1, 0.05, 512)[2:] == (None, '', 0.0, False)
+    assert variant_info(V(1, 7, 'es+n32'), 0.01, 1.1, 0.05, 512)[3:] == ('es+n32:f64', U32 * 0.05, True)
     # low-precision index rule and form suffix of the keys
     assert check_equiv(good, dict(good, t_opt=good['t_opt'] + STEP, i=5), 1.0, 0.0, 1.0, 1.05, 'self', lowprec=True) == []
     assert check_equiv(good, dict(good, t_opt=good['t_opt'] + STEP, i=5), 1.0, 0.0, 1.0, 1.05, 'self')
     assert check_equiv(good, dict(good, i=5), 1.0, 0.0, 1.0, 1.05, 'self', lowprec=True)
+    assert check_equiv(good, dict(good, mu0=0.013), 1.0, 0.0, 1.0, 1.05, 'self', lowprec=True)          # timing identical: levels compared
+    assert check_equiv(good, dict(good, mu0=0.013, t_opt=STEP), 1.0, 0.0, 1.0, 1.05, 'self', lowprec=True) == []   # window moved
+    assert check_equiv(good, dict(good, mu0=0.013, t_opt=STEP), 1.0, 0.0, 1.0, 1.05, 'self')
     assert check_equiv(good, dict(good, s0=0.013), 1.0, 0.0, 1.0, 1.05, 'self', form='es+n:f64')[0][0] == 'equiv:levels:pp=1e+00V->1e+00V,es+n:f64'
     return res(obs='selftest-ok', stats={'selftests': 1})
 
